@@ -155,12 +155,30 @@ Definition istep2 (s : store) (m : smap) (p : pc2) : store * smap * pc2 :=
   | QDone r lin => (s, m, QDone r lin)
   end.
 
+(* ---- the key lock (Store.keyLks): Put and Remove hold the lock of their key's stripe from the index lookup to the index update.
+   Acquiring is merged with the lookup that follows it and releasing with the step that precedes it (acquire is a right mover,
+   release a left mover), so the lock needs no state of its own: a thread HOLDS the stripe of its key exactly while it stands
+   between the lookup and the last step of a Put or Remove, and a writer whose stripe is held cannot take its first step. *)
+Definition stripe (ik : bytes) : N := last ik 0.
+Definition holds (p : pc2) : option N :=
+  match p with
+  | QPutB _ _ ik | QPutC _ _ ik _ | QUpdB _ _ ik _ | QUpdC _ _ ik _ _ | QRemB _ ik _ | QRemC _ ik _ => Some (stripe ik)
+  | _ => None
+  end.
+Definition lock_held (ps : list pc2) (st : N) : bool :=
+  existsb (fun q => match holds q with Some x => x =? st | None => false end) ps.
+Definition blocked (ps : list pc2) (p : pc2) : bool :=
+  match p with
+  | QStart (QPut k _) | QStart (QRemove k) => match mh_digest k with Some ik => lock_held ps (stripe ik) | None => false end
+  | _ => false
+  end.
+
 Definition cfg2 := (store * smap * list pc2)%type.
 Definition sched_step2 (c : cfg2) (t : nat) : cfg2 :=
   let '(s, m, ps) := c in
   match nth_error ps t with
   | None => c
-  | Some p => let '(s', m', p') := istep2 s m p in (s', m', set_nth t p' ps)
+  | Some p => if blocked ps p then c else let '(s', m', p') := istep2 s m p in (s', m', set_nth t p' ps)
   end.
 Definition exec2 (c : cfg2) (sched : list nat) : cfg2 := fold_left sched_step2 sched c.
 
@@ -168,10 +186,9 @@ Variable bits : N.
 Variable U : bytes -> Prop.
 Hypothesis HU : unrelated bits U.
 
-(* the key a call may still write *)
+(* the key a call may still write: it holds that key's lock *)
 Definition wkey2 (p : pc2) : option bytes :=
   match p with
-  | QStart (QPut k _) | QStart (QRemove k) => mh_digest k
   | QPutB _ _ ik | QPutC _ _ ik _ | QUpdB _ _ ik _ | QUpdC _ _ ik _ _ | QRemB _ ik _ | QRemC _ ik _ => Some ik
   | _ => None
   end.
@@ -236,19 +253,34 @@ Proof.
   - intros (A & B). split; [exact A|]. lia.
 Qed.
 
+Lemma wkey2_holds p ik : wkey2 p = Some ik -> holds p = Some (stripe ik).
+Proof.
+  destruct p as [c|k v ik0|k v ik0 loc|k v ik0 prev|k v ik0 prev loc|ik0 b lin|ik0 b lin|k ik0 b lin|k ik0 b|k ik0 b|last f|r lin];
+    cbn [wkey2 holds]; intros H; inversion H; reflexivity.
+Qed.
+Lemma not_held_fresh ps st : lock_held ps st = false -> forall j q, nth_error ps j = Some q -> holds q <> Some st.
+Proof.
+  unfold lock_held. intros H j q Hq Hh. apply nth_error_In in Hq.
+  assert (Ht : existsb (fun q0 => match holds q0 with Some x => x =? st | None => false end) ps = true).
+  { apply existsb_exists. exists q. split; [exact Hq|]. rewrite Hh. apply N.eqb_refl. }
+  congruence.
+Qed.
+
 Theorem step_inv2 c t : CInv2 c -> CInv2 (sched_step2 c t).
 Proof.
   destruct c as [[s m] ps]. intros [HR Hk Hd Hfo]. cbn [fst snd] in *. unfold sched_step2.
   destruct (nth_error ps t) as [p|] eqn:Hp; [|constructor; auto].
+  destruct (blocked ps p) eqn:Hblk; [constructor; auto|].
   pose proof (Hk t p Hp) as Kp. pose proof (r_pinv _ _ _ _ HR) as PI.
   (* a step that takes the shared state from (s, m) to (s1, m1), writing at most the key [w] of the stepping thread *)
-  assert (Change : forall s1 m1 p' w,
+  assert (ChangeG : forall s1 m1 p' w,
              R bits U s1 m1 ->
              (ifirst (sidx s1) <= ifile (sidx s1) /\ ifile (sidx s) <= ifile (sidx s1)) ->
              (forall b k v, solid (spri s) b k v -> solid (spri s1) b k v) ->
              (forall ik, w <> Some ik -> m1 ik = m ik) ->
              (forall ik, w = Some ik -> wkey2 p = Some ik) ->
-             know2 s1 m1 p' -> (forall ik, wkey2 p' = Some ik -> wkey2 p = Some ik) ->
+             know2 s1 m1 p' ->
+             (forall ik, wkey2 p' = Some ik -> wkey2 p = Some ik \/ (forall j q, j <> t -> nth_error ps j = Some q -> wkey2 q <> Some ik)) ->
              CInv2 (s1, m1, set_nth t p' ps)).
   { intros s1 m1 p' w HR1 [Hfo1 Hfile1] Hsol Hm1 Hwp Kp' Hw. constructor; cbn [fst snd]; [exact HR1| | |exact Hfo1].
     - intros t' q Hq. destruct (Nat.eq_dec t t') as [<-|Hne].
@@ -260,16 +292,33 @@ Proof.
     - intros i j pi pj ik Hij Hi Hj Hwi.
       destruct (Nat.eq_dec t i) as [Eti|Hti]; destruct (Nat.eq_dec t j) as [Etj|Htj]; [exfalso; apply Hij; congruence|subst i|subst j|].
       + rewrite (nth_set_nth_same ps t p' p Hp) in Hi. inversion Hi; subst pi.
-        rewrite nth_set_nth_other in Hj by exact Htj. apply (Hd t j p pj ik Hij Hp Hj). apply Hw; exact Hwi.
+        rewrite nth_set_nth_other in Hj by exact Htj.
+        destruct (Hw ik Hwi) as [Hold|Hfresh]; [apply (Hd t j p pj ik Hij Hp Hj Hold)|apply (Hfresh j pj); auto].
       + rewrite (nth_set_nth_same ps t p' p Hp) in Hj. inversion Hj; subst pj.
-        rewrite nth_set_nth_other in Hi by exact Hti. intros Hwj. apply (Hd i t pi p ik Hij Hi Hp Hwi). apply Hw; exact Hwj.
+        rewrite nth_set_nth_other in Hi by exact Hti. intros Hwj.
+        destruct (Hw ik Hwj) as [Hold|Hfresh]; [apply (Hd i t pi p ik Hij Hi Hp Hwi Hold)|apply (Hfresh i pi); auto].
       + rewrite nth_set_nth_other in Hi by exact Hti. rewrite nth_set_nth_other in Hj by exact Htj. apply (Hd i j pi pj _ Hij Hi Hj Hwi). }
+  assert (Change : forall s1 m1 p' w,
+             R bits U s1 m1 ->
+             (ifirst (sidx s1) <= ifile (sidx s1) /\ ifile (sidx s) <= ifile (sidx s1)) ->
+             (forall b k v, solid (spri s) b k v -> solid (spri s1) b k v) ->
+             (forall ik, w <> Some ik -> m1 ik = m ik) ->
+             (forall ik, w = Some ik -> wkey2 p = Some ik) ->
+             know2 s1 m1 p' -> (forall ik, wkey2 p' = Some ik -> wkey2 p = Some ik) ->
+             CInv2 (s1, m1, set_nth t p' ps)).
+  { intros s1 m1 p' w H1 H2 H3 H4 H5 H6 H7. apply (ChangeG s1 m1 p' w); auto. }
+  assert (SameG : forall p', know2 s m p' ->
+             (forall ik, wkey2 p' = Some ik -> wkey2 p = Some ik \/ (forall j q, j <> t -> nth_error ps j = Some q -> wkey2 q <> Some ik)) ->
+             CInv2 (s, m, set_nth t p' ps)).
+  { intros p' Kp' Hw. apply (ChangeG s m p' None); auto; [split; [exact Hfo|lia]|intros; discriminate]. }
   assert (Same : forall p', know2 s m p' -> (forall ik, wkey2 p' = Some ik -> wkey2 p = Some ik) -> CInv2 (s, m, set_nth t p' ps)).
-  { intros p' Kp' Hw. apply (Change s m p' None); auto; [split; [exact Hfo|lia]|intros; discriminate]. }
+  { intros p' Kp' Hw. apply SameG; auto. }
   destruct p as [[k v|k|k|k|k| |sf]|k v ik|k v ik loc|k v ik prev|k v ik prev loc|ik b lin|ik b lin|k ik b lin|k ik b|k ik b|last f|r lin]; cbn [istep2].
   - (* Put: look the key up *)
     cbn [know2] in Kp. destruct (mh_digest k) as [ik|] eqn:Hdk; [|apply Same; [reflexivity|intros ? H; discriminate]].
     specialize (Kp ik eq_refl).
+    assert (Hfresh : forall j q, j <> t -> nth_error ps j = Some q -> wkey2 q <> Some ik).
+    { cbn [blocked] in Hblk. rewrite Hdk in Hblk. intros j q _ Hq Hwq. apply (not_held_fresh ps _ Hblk j q Hq). apply wkey2_holds; exact Hwq. }
     destruct (m ik) as [[k0 v0]|] eqn:Hm.
     + destruct (get_present bits U s m ik k0 v0 HR Hm) as (e & l & _ & _ & _ & Hi & Hg & Hd0).
       rewrite Hi. unfold pget in Hg. rewrite Hg, Hd0, beq_refl.
@@ -277,12 +326,12 @@ Proof.
       * rewrite Eimm. apply Same; [|intros ? H; discriminate]. cbn [know2 spec_step]. rewrite Hdk, Hm. reflexivity.
       * apply Bool.not_true_is_false in Eimm. rewrite Eimm. destruct (beq v v0) eqn:Ev.
         -- apply Same; [|intros ? H; discriminate]. cbn [know2 spec_step]. rewrite Hdk, Hm, Ev. reflexivity.
-        -- apply Same; [cbn [know2]; split; [exact Hdk|]; split; [exact Eimm|]; exists k0, v0; auto|].
-           intros ik0 H. cbn [wkey2] in *. congruence.
+        -- apply SameG; [cbn [know2]; split; [exact Hdk|]; split; [exact Eimm|]; exists k0, v0; auto|].
+           intros ik0 H. cbn [wkey2] in H. inversion H; subst ik0. right. exact Hfresh.
     + destruct (get_absent bits U s m ik HR Hm) as [Hi|(b & k' & v' & ik' & Hi & Hg & Hd' & Hne)]; rewrite Hi.
-      * apply Same; [cbn [know2]; auto|]. intros ik0 H. cbn [wkey2] in *. congruence.
+      * apply SameG; [cbn [know2]; auto|]. intros ik0 H. cbn [wkey2] in H. inversion H; subst ik0. right. exact Hfresh.
       * unfold pget in Hg. rewrite Hg, Hd'. rewrite beq_neq by exact Hne.
-        apply Same; [cbn [know2]; auto|]. intros ik0 H. cbn [wkey2] in *. congruence.
+        apply SameG; [cbn [know2]; auto|]. intros ik0 H. cbn [wkey2] in H. inversion H; subst ik0. right. exact Hfresh.
   - (* Get: look the key up (linearization point) *)
     cbn [know2] in Kp. destruct (mh_digest k) as [ik|] eqn:Hdk; [|apply Same; [reflexivity|intros ? H; discriminate]].
     destruct (m ik) as [[k0 v0]|] eqn:Hm.
@@ -300,16 +349,18 @@ Proof.
         exists k', v'. split; [exact Hs1|]. right. exists ik'. auto.
   - (* Remove: look the key up *)
     cbn [know2] in Kp. destruct (mh_digest k) as [ik|] eqn:Hdk; [|apply Same; [reflexivity|intros ? H; discriminate]].
+    assert (Hfresh : forall j q, j <> t -> nth_error ps j = Some q -> wkey2 q <> Some ik).
+    { cbn [blocked] in Hblk. rewrite Hdk in Hblk. intros j q _ Hq Hwq. apply (not_held_fresh ps _ Hblk j q Hq). apply wkey2_holds; exact Hwq. }
     destruct (m ik) as [[k0 v0]|] eqn:Hm.
     + destruct (r_map _ _ _ _ HR ik k0 v0 Hm) as (_ & Hd0 & _).
       destruct (get_present bits U s m ik k0 v0 HR Hm) as (e' & l' & _ & _ & _ & Hi & Hg & _).
-      rewrite Hi. apply Same; [|intros ik0 H; cbn [wkey2] in *; congruence]. cbn [know2]. split; [exact Hdk|].
+      rewrite Hi. apply SameG; [|intros ik0 H; cbn [wkey2] in H; inversion H; subst ik0; right; exact Hfresh]. cbn [know2]. split; [exact Hdk|].
       destruct (idx_get_solid bits U s m ik _ HR Hi) as (k1 & v1 & ik1 & Hs1 & _ & _).
       destruct (solid_get _ _ _ _ PI Hs1) as [Hg1 _]. unfold pget in Hg. rewrite Hg in Hg1. inversion Hg1; subst k1 v1.
       exists k0, v0. split; [exact Hs1|]. left. auto.
     + destruct (get_absent bits U s m ik HR Hm) as [Hi|(b & k' & v' & ik' & Hi & Hg & Hd' & Hne)]; rewrite Hi.
       * apply Same; [|intros ? H; discriminate]. cbn [know2 spec_step]. rewrite Hdk, Hm. reflexivity.
-      * apply Same; [|intros ik0 H; cbn [wkey2] in *; congruence]. cbn [know2]. split; [exact Hdk|].
+      * apply SameG; [|intros ik0 H; cbn [wkey2] in H; inversion H; subst ik0; right; exact Hfresh]. cbn [know2]. split; [exact Hdk|].
         destruct (idx_get_solid bits U s m ik _ HR Hi) as (k1 & v1 & ik1 & Hs1 & _ & _).
         destruct (solid_get _ _ _ _ PI Hs1) as [Hg1 _]. unfold pget in Hg. rewrite Hg in Hg1. inversion Hg1; subst k1 v1.
         exists k', v'. split; [exact Hs1|]. right. exists ik'. auto.
@@ -512,30 +563,38 @@ Lemma exec_inv2 sched : forall c, CInv2 c -> CInv2 (exec2 c sched).
 Proof. induction sched as [|t sched IH]; intros c HI; cbn [exec2 fold_left]; [exact HI|]. apply IH. apply step_inv2; exact HI. Qed.
 
 Definition call_key (c : call2) : bytes := match c with QPut k _ | QGet k | QRemove k | QHas k | QSize k => k | QFlush | QIgcCycle _ => [] end.
-Definition is_writer (c : call2) : bool := match c with QPut _ _ | QRemove _ => true | _ => false end.
-(* every thread is about to start one call; no two WRITERS (Put / Remove) address the same key *)
+(* every thread is about to start one call; ANY calls - several writers may address one key (the key lock serialises them) *)
 Definition init_ok2 (s : store) (m : smap) (calls : list call2) : Prop :=
   R bits U s m /\ ifirst (sidx s) <= ifile (sidx s) /\
-  (forall c ik, In c calls -> mh_digest (call_key c) = Some ik -> U ik) /\
-  (forall i j ci cj ik, i <> j -> nth_error calls i = Some ci -> nth_error calls j = Some cj ->
-                        is_writer ci = true -> is_writer cj = true ->
-                        mh_digest (call_key ci) = Some ik -> mh_digest (call_key cj) <> Some ik).
+  (forall c ik, In c calls -> mh_digest (call_key c) = Some ik -> U ik).
 
 Lemma init_inv2 s m calls : init_ok2 s m calls -> CInv2 (s, m, map QStart calls).
 Proof.
-  intros (HR & Hfo & HUk & Hdist). constructor; cbn [fst snd]; [exact HR| | |exact Hfo].
+  intros (HR & Hfo & HUk). constructor; cbn [fst snd]; [exact HR| | |exact Hfo].
   - intros t p Hp. rewrite nth_error_map in Hp. destruct (nth_error calls t) as [c|] eqn:Hc; [|discriminate].
     inversion Hp; subst p. apply nth_error_In in Hc. destruct c as [k v|k|k|k|k| |sf]; cbn [know2]; [| | | | |exact I|exact I]; intros ik Hd; apply (HUk _ ik Hc Hd).
   - intros i j pi pj ik Hij Hi Hj Hw. rewrite nth_error_map in Hi, Hj.
     destruct (nth_error calls i) as [ci|] eqn:Hci; [|discriminate]. destruct (nth_error calls j) as [cj|] eqn:Hcj; [|discriminate].
-    inversion Hi; inversion Hj; subst pi pj.
-    destruct ci as [k v|k|k|k|k| |sf]; cbn [wkey2] in Hw; try discriminate;
-      destruct cj as [k' v'|k'|k'|k'|k'| |sf']; cbn [wkey2]; try discriminate;
-      eapply (Hdist i j _ _ ik Hij Hci Hcj); reflexivity || exact Hw.
+    inversion Hi; subst pi. cbn [wkey2] in Hw. discriminate.
+Qed.
+
+(* deadlock freedom of the key lock: a writer that cannot step waits for a thread that holds the lock, and a holder's step is
+   never blocked (it stands inside its call and takes no further lock) *)
+Lemma blocked_waits_for_a_running_holder ps p :
+  blocked ps p = true -> exists u q, nth_error ps u = Some q /\ holds q <> None /\ blocked ps q = false.
+Proof.
+  intros Hb.
+  assert (Hh : exists st, lock_held ps st = true).
+  { destruct p as [[k v|k|k|k|k| |sf]|k v ik0|k v ik0 loc|k v ik0 prev|k v ik0 prev loc|ik0 b lin|ik0 b lin|k ik0 b lin|k ik0 b|k ik0 b|last f|r lin];
+      cbn [blocked] in Hb; try discriminate; destruct (mh_digest k); try discriminate; eauto. }
+  destruct Hh as (st & Hh). unfold lock_held in Hh. apply existsb_exists in Hh. destruct Hh as (q & Hin & Hq).
+  apply In_nth_error in Hin. destruct Hin as (u & Hu). exists u, q. split; [exact Hu|].
+  destruct q as [c|k v ik0|k v ik0 loc|k v ik0 prev|k v ik0 prev loc|ik0 b lin|ik0 b lin|k ik0 b lin|k ik0 b|k ik0 b|last f|r lin];
+    cbn [holds] in Hq; try discriminate; cbn [holds blocked]; split; congruence.
 Qed.
 
 (* C05: for ANY number of concurrent Put (new key, overwrite, identical value, rejected in immutable mode), Get and Remove
-   calls in which no two writers address the same key, and ANY schedule of their atomic steps: the shared state stays
+   calls - several writers may address one key; the key lock serialises them - and ANY schedule of their atomic steps: the shared state stays
    related to the specification state obtained by applying the calls at their linearization points, and every call that
    has returned returned exactly what the specification answered at its linearization point — in particular no call
    fails, and a call on one key never changes or hides another key. *)
